@@ -309,6 +309,23 @@ pub fn check_case(ctx: &mut Ctx, case: &Case, cfg: &Cfg, props: &[String], want_
         }
     };
     bump(&mut res, "C04");
+    if has(props, "C04") {
+        // work counters (the polynomial clause is decided on counters, not on time): one pass per explored branch at most
+        let passes = step_args(&base.events, "pass").len();
+        let ncond = tin.iter().filter(|t| t.kind.starts_with("ConditionalDirective(")).count();
+        if passes > ncond + 1 {
+            res.viols.push(Viol { prop: "C04", clause: "pass_count", detail: format!("{passes} parsing passes for {ncond} conditional directives (bound: directives + 1)") });
+        }
+        for a in step_args(&base.events, "tally:search_iterations") {
+            // [calls, sum, max]: every search stops at the iteration limit
+            if a[2] > 20_001 {
+                res.viols.push(Viol { prop: "C04", clause: "iteration_limit", detail: format!("a line search ran {} iterations (limit 20000)", a[2]) });
+            }
+            *res.nontrivial.entry("search_calls").or_insert(0) += a[0] as u64;
+            *res.nontrivial.entry("search_iterations").or_insert(0) += a[1] as u64;
+        }
+        *res.nontrivial.entry("passes").or_insert(0) += passes as u64;
+    }
     // what the generator knows travels with the base call (for the TLA+ predicates)
     if a > 0 {
         let cp = |b: usize| cp_offset(text, b.min(text.len()));
